@@ -208,6 +208,11 @@ let mon_c01 (r : runres) =
                      fail "C01/reap-twice/attempt-after-status" "waitpid attempted after a status was returned"
                  | None -> ())
               end
+            | (OS (SWait _) | OS (SStop _)), RInt rr when i rr < 0 && hi.status <> None ->
+              let in_range_stop = (match st.s_op with OS (SStop (_, a)) -> List.for_all (fun (x, _) -> x >= 1 && x <= 3) (norm_stop a) | _ -> true) in
+              if in_range_stop then
+                fail "C01/status-unstable/error-after-status"
+                  (Printf.sprintf "status %d had been returned, a later wait/stop returned %d" (Option.get hi.status) (i rr))
             | _ -> ());
            (* liveness: a child that has ended is reported — no hang, no time-out *)
            (match st.s_op, st.s_res with
@@ -1090,6 +1095,16 @@ let mon_c14 (r : runres) (flags : string list) =
                         && (hi.pclosed.(0) || (match hi.opts with Some o -> o.o_input_data | None -> false)
                             || (match hi.eff with Some e -> i e.o_in.rd_type <> 1 | None -> false)) ->
            if i rr <> epipe then fail "C14/result-class/closed-stream/write" (Printf.sprintf "write to a closed or non-piped stdin returned %d" (i rr))
+         | Some hi when hi.started && not hi.fork_mode && hi.child > 0 && i rr = epipe ->
+           (* the converse: the closed-pipe error only for a stdin that really is closed -- here the
+              parent never closed it, it is a pipe, and the child still holds its read end *)
+           let reader_open =
+             match image_obj (match hi.start_after with Some w -> w | None -> st.s_before) hi.child 0 with
+             | Some (OPipeR q) -> (proc st.s_before hi.child).pr_state = Running
+                                  && List.exists (fun (_, d) -> d.f_obj = OPipeR q) (fds_of st.s_before hi.child)
+             | _ -> false in
+           if reader_open then
+             fail "C14/result-class/open-stream/write" "write returned the closed-pipe error although stdin was never closed and the child still reads it"
          | _ -> ())
       | _ -> ()))
 
